@@ -70,7 +70,7 @@ def statuses_of(res, structured):
 
 def shard(ctx):
     rng = ctx.rng("c17")
-    n = 45 if ctx.quick else 1200
+    n = 45 if ctx.quick else 3000
     for t in range(n):
         M, D, P, rtext = make_case(rng)
         overlap = rng.random() < 0.25
